@@ -255,7 +255,7 @@ def handler(case):
 
 def _handler(case):
     texts = case["texts"]
-    folder = tempfile.mkdtemp(prefix="c01_")
+    folder = tempfile.mkdtemp(prefix="c01_", dir=os.getcwd())  # under the run's tmp dir: removed with it
     _clock["us"] = 0
     pymoca.__version__ = "0.0.0+verif"
     importlib.reload(pymoca.parser)
